@@ -34,56 +34,74 @@ LEAN_MODULES = ["LenaModel.Props.C14", "LenaModel.Props.C14Tok"]
 LEAN_SOURCES = ["LenaModel/Model/C14.lean", "LenaModel/Lemmas/C14.lean", "LenaModel/Props/C14.lean",
                 "LenaModel/Model/C14Tok.lean", "LenaModel/Lemmas/C14Tok.lean", "LenaModel/Props/C14Tok.lean"]
 DRIVER = "drivers/C14.lean"
+# the theorems that carry the property
 THEOREMS = [
+    # sentence 1 (Compose = Sequence): false without restriction on attribute names (known finding), proved with it
+    "Lena.C14.compose_ne_sequence_attr_clash",
     "Lena.C14.compose_eq_sequence_partial",
-    "Lena.C14.compose_eq_sequence_pinned_partial",
-    "Lena.C14.compose_ne_sequence_pinned",
     "Lena.C14.UP_assoc",
     "Lena.C14.updateVar_eq_UP",
-    "Lena.C14.chainWFb_sound",
-    "Lena.C14.seqCall_data",
-    "Lena.C14.compose_getter",
-    "Lena.C14.combine_tuple",
-    "Lena.C14.combine_context",
-    "Lena.C14.call_data",
-    "Lena.C14.call_frame",
-    "Lena.C14.seqCall_frame",
-    "Lena.C14.call_carries_attributes",
-    "Lena.C14.mkVariable_attributes",
+    "Lena.C14.compose_eq_sequence_expr_partial",
+    "Lena.C14.evalExpr_wf",
+    "Lena.C14.evalArgs_wf",
+    "Lena.C14.mkVariable_wf",
+    "Lena.C14.mkComposeK_wf",
+    "Lena.C14.mkCombine_wf",
+    # sentence 3 (types persist, compose lists the types in order) for the Sequence, for Compose, for any variables / trees
     "Lena.C14.seqCall_result",
     "Lena.C14.types_persist",
     "Lena.C14.compose_order",
     "Lena.C14.earlier_types_persist",
-    "Lena.C14.mkVariable_rejects",
+    "Lena.C14.types_persist_compose",
+    "Lena.C14.compose_order_general",
+    "Lena.C14.compose_order_expr",
+    # sentence 2 (context.variable carries the name and attributes)
+    "Lena.C14.call_carries_attributes",
+    "Lena.C14.mkVariable_attributes",
+    "Lena.C14.combine_context",
+    "Lena.C14.setAttr_reaches_context",
+    "Lena.C14.getAttr_mkVariable",
+    "Lena.C14.combine_getitem",
     "Lena.C14.mkCompose_rejects",
     "Lena.C14.mkCombine_rejects",
     "Lena.C14.compose_name_keyword_ignored",
-    "Lena.C14.compose_name_keyword",
-    "Lena.C14.mkComposeN_no_name",
+    # last sentence (the variable and the rest of the value's context are not changed), on object identities
+    "Lena.C14.Tok.deepcopyT_spec",
+    "Lena.C14.Tok.callT_spec",
+    "Lena.C14.Tok.callT_other_untouched",
+    "Lena.C14.Tok.callT_variable_untouched",
+    "Lena.C14.Tok.callsT_variable_untouched",
+    "Lena.C14.Tok.seqT_variables_untouched",
+    "Lena.C14.Tok.callT_frame",
+    "Lena.C14.Tok.callT_erase",
+    "Lena.C14.Tok.callT_results_equal",
+]
+# audited too, but not obligations of the property: true by definition of the model (the clauses they stand for are
+# carried by the correspondence and the oracle), soundness of the Boolean checks, and theorems about code that is not in
+# /repo (fx=false: the tree before 0eafe05; mkComposeN: the unapplied notes/C14_defect_2.patch)
+AUX_THEOREMS = [
+    "Lena.C14.compose_getter",
+    "Lena.C14.combine_tuple",
+    "Lena.C14.call_data",
+    "Lena.C14.seqCall_data",
+    "Lena.C14.call_frame",
+    "Lena.C14.seqCall_frame",
+    "Lena.C14.mkVariable_rejects",
     "Lena.C14.getAttr_setAttr",
     "Lena.C14.getAttr_setAttr_ne",
     "Lena.C14.getAttr_private",
     "Lena.C14.getAttr_missing",
-    "Lena.C14.getAttr_mkVariable",
-    "Lena.C14.setAttr_reaches_context",
-    "Lena.C14.combine_getitem",
-    "Lena.C14.mkVariable_wf",
-    "Lena.C14.mkComposeK_wf",
-    "Lena.C14.mkCombine_wf",
-    "Lena.C14.evalExpr_wf",
-    "Lena.C14.evalArgs_wf",
+    "Lena.C14.rawValue_spec",
     "Lena.C14.exprTypes_sub",
-    "Lena.C14.compose_eq_sequence_expr_partial",
+    "Lena.C14.chainWFb_sound",
     "Lena.C14.leavesOKb_sound",
     "Lena.C14.namesOK2b_sound",
     "Lena.C14.typesOKb_sound",
-    "Lena.C14.Tok.deepcopyT_spec",
-    "Lena.C14.Tok.callT_spec",
     "Lena.C14.Tok.sepB_sound",
-    "Lena.C14.Tok.callT_variable_untouched",
-    "Lena.C14.Tok.callsT_variable_untouched",
-    "Lena.C14.Tok.callT_frame",
-    "Lena.C14.Tok.callT_erase",
+    "Lena.C14.compose_eq_sequence_pinned_partial",
+    "Lena.C14.compose_ne_sequence_pinned",
+    "Lena.C14.compose_name_keyword",
+    "Lena.C14.mkComposeN_no_name",
 ]
 TRUSTED = [
     "Lean 4.33.0 kernel; axioms limited to propext, Classical.choice, Quot.sound (audited by #print axioms on every run)",
@@ -98,31 +116,63 @@ TRUSTED = [
     "the getter fixture x -> (i, x) on both sides; JSON line protocol encoders (harness/props/c14.py, drivers/C14.lean)",
 ]
 ASSUMPTIONS = [
-    "getters are total functions of the data (an exception of a user's getter is outside the statement)",
-    "contexts hold ints, strings, lists, tuples and string-keyed dictionaries; a `type` is a string",
-    "in-place mutation is stated and proved in the token model (Props/C14Tok.lean) and checked on the real objects both by "
-    "snapshots (chain kind) and by id() graphs (tok kind)",
-    "the model carries both versions of the condition in line 196 of variable.py (fx=true: `\"type\" in cvar or \"compose\" in "
-    "cvar`, /repo since commit 0eafe05 = notes/C14_defect_1.patch; fx=false: `\"type\" in cvar`, the tree before it); the "
-    "harness determines on one fixed input which of them the tree under test implements and asks the model for that one; "
-    "compose_eq_sequence_partial is proved for fx=true, for fx=false only under the hypothesis that every non-last variable is typed "
-    "(compose_eq_sequence_pinned_partial) together with a machine-checked counterexample (compose_ne_sequence_pinned)",
-    "theorem hypotheses (NamesOK, ChainWF: well-formed variable contexts, no attribute named like a type, no type called "
-    "'compose'; LeavesOK for the distinct-types theorems) are evaluated by the driver (chainWFb) on every generated case and "
-    "must hold for every case the harness classifies as well-formed (spec_wf)",
+    "KNOWN FINDING (notes/C14_defect_3.md, known_findings.json): sentence 1 is false of /repo when an attribute of a variable "
+    "(or of the pre-existing context.variable) is named like a type of the run -- inside the property's quantifier "
+    "('arbitrary extra attributes'); machine-checked: Lena.C14.compose_ne_sequence_attr_clash refutes "
+    "compose_eq_sequence_full; the proved theorem compose_eq_sequence_partial has the hypothesis NoClash. Such cases are "
+    "generated in the non-wild stream; their Compose/Sequence difference and the lost sub-context are reported under the "
+    "known signature, every other failure of such a case is a VIOLATION",
+    "getters are total functions of the data (an exception of a user's getter is outside the statement); data are ints, "
+    "tuples and tuples that look like a (data, context) pair (getter fixtures x->(i,x), x->(x,{'w':i}), x->x[0]); "
+    "_has_context is transcribed (Lean rawValue) and every input is given to the model as the raw value",
+    "contexts hold ints, None/bool/float (opaque scalars: encoded as int codes beyond +-10^6 in the model, which observes "
+    "them like the code does -- truthiness, hashability, 'not a str/list/dict'), strings, lists, tuples and string-keyed "
+    "dictionaries; a `type` is a string; attribute names come from a pool with the documented names (latex_name, unit, "
+    "range) and a few identifiers; dictionaries with non-string keys are not generated",
+    "one Variable object may occur several times in a chain (Sequence(v, v), Compose(v, w, v), Sequence(v, Compose(v, w))): "
+    "generated; the value model has no object identity for variables, so this is checked by the oracle and the "
+    "correspondence only",
+    "in-place mutation is stated and proved in the token model (Props/C14Tok.lean) under the hypothesis Sep (the variable's "
+    "objects are older than the counter and none of them is an object of the value; values without internal sharing); "
+    "checked on the real objects by snapshots (chain kind) and id() graphs (tok kind); two aliasing cases (Sep false) are "
+    "generated: there the theorems do not apply, model and code must still agree and the variable must not change. The "
+    "identity structure of the result (same context object, moved sub-objects, which old objects are written) is compared "
+    "with the model only while the implementation updates the caller's context in place, as line 216 does; an "
+    "implementation that returns a copy of the context satisfies the property and passes",
+    "the state an exception leaves behind (line 208 creates cvar['compose'] before a failing assert in line 210) is not "
+    "modelled: after an exception nothing is claimed",
+    "lena.core.Sequence applies its elements one after the other through the adapter lena.core.Call (el(value)); the model's "
+    "seqCall is that composition; validated by the correspondence, not proved (C01/C05 are about Sequence itself)",
+    "lena/variables/functions.py (abs, Cm) is anchored but NOT exercised (0 lines covered): both call the commented-out "
+    "Variable.get and raise LenaAttributeError for their default call, Cm cannot replace the getter at all; they are not "
+    "part of the statement (recorded as a C20-side judgement); any edit of that file is invisible to this check",
+    "strings outside the key alphabet of a case share one padded slot in the model (key = names.length): the harness "
+    "builds the alphabet from every string of the case, so this never happens on a generated case; theorems about single "
+    "keys (getAttr_setAttr_ne, mkVariable_attributes) are stated on slot numbers",
+    "the model carries both versions of the condition in line 196 of variable.py (fx) and of the name keyword of Compose "
+    "(nk: notes/C14_defect_2.patch, not applied); the harness determines on one fixed input each which the tree implements "
+    "and asks the driver for that one (recorded in the evidence notes); theorems about the variants that are not in /repo "
+    "are in AUX_THEOREMS",
+    "theorem hypotheses (NamesOK, ChainWF, chainOKb, LeavesOK, sepB) are Boolean functions evaluated by the driver on every "
+    "generated case; every case the harness classifies as inside the hypotheses (spec_wf) must satisfy them",
 ]
 RULE = ("chain: exhaustive chains of 1..3 leaf variables, each untyped / typed with a fresh type / typed with the shared type "
         "'ta', with and without an attribute, x 7 input values (bare, context without variable, untyped variable, typed "
         "variable, composed variable, typed-then-untyped variable, composed variable whose type equals a chain type); Combine "
         "of 1..4 leaves x typed/untyped pattern x name/type keyword, alone and between typed variables; Compose with keywords; "
-        "seeded random chains of 1..5 expressions (leaves, nested Compose/Combine to depth 2 below the chain, random attributes "
-        "with nested values; quick 700, thorough 40000) and 'wild' cases (quick 800, thorough 30000: reserved words as types "
-        "and attribute names, non-list compose, non-dict context.variable, bad getters, non-Variable arguments, empty "
-        "Compose/Combine, getter/dim/type/name keywords); every value applied twice. attr: every index -n-2..n+1 of Combine of "
-        "1..4 variables, every kind of attribute name on a leaf / Combine / Compose, random get/set/item/call sequences (quick "
-        "300, thorough 8000). tok: 6 variables x 7 input values x 3 successive applications with object identities, random "
-        "(quick 300, thorough 8000). Non-trivial: a chain of >= 2 variables whose result has a compose list, a Combine, an "
-        "exception; attr: a value or an exception; tok: an object changed in place.")
+        "chains whose getters return / consume data that looks like a (data, context) pair, on raw pair-shaped inputs; the "
+        "documented attributes latex_name/unit/range (also None/bool/float values) on every variable of a chain; one Variable "
+        "object used twice (Sequence(v,v), Compose(v,w,v), Sequence(v,Compose(v,w)), Combine(v,v)); attributes named like a type "
+        "(known finding). Seeded random chains of 1..5 expressions (leaves, nested Compose/Combine to depth 2 below the chain, "
+        "attributes from a pool of 8 names with nested values incl. None/bool/float/nan/inf, 3 getter fixtures, int / tuple / "
+        "pair-shaped data, 5% attributes named like a type, 12% shared objects, 10% a documented attribute on every leaf; "
+        "quick 700, thorough 40000) and 'wild' cases (quick 800, thorough 30000: reserved words as types and attribute names, "
+        "non-list compose, non-dict context.variable, bad getters, non-Variable arguments, empty Compose/Combine, "
+        "getter/dim/type/name keywords); every value applied twice. attr: every index -n-2..n+1 of Combine of 1..4 variables, "
+        "every kind of attribute name on a leaf / Combine / Compose, random get/set/item/call sequences (quick 300, thorough "
+        "8000). tok: single variables and chains of 2..4 different variables x input values x up to 3 rounds with object "
+        "identities, two aliasing cases, random (quick 300, thorough 8000). Non-trivial: a chain of >= 2 variables whose result "
+        "has a compose list, a Combine, an exception; attr: a value or an exception; tok: an object changed in place.")
 CASE_TIMEOUT = 10
 
 RESERVED = ["name", "type", "compose", "variable", "dim", "combine", "getter"]
@@ -1127,6 +1177,13 @@ def _exhaustive_cases(maxlen):
                   [{"k": "combine", "args": [pw(1), _leaf(2, "tb")], "kw": {}}, first(3, "tc")],
                   [pw(1), {"k": "compose", "args": [_leaf(2, "ta"), pw(3)], "kw": {}}, _leaf(4, "tb")]):
         cases.append({"chain": chain, "vals": pvals})
+    # the documented attributes on every variable of a chain (latex_name, unit, range), also None / bool / float values
+    doc = [{"latex_name": "e^+", "unit": "mm", "range": {"l": [0, 100]}}, {"latex_name": "x", "unit": "cm"},
+           {"latex_name": "E_{kin}", "unit": {"o": "None"}, "range": {"t": [{"o": "0.0"}, {"o": "1.5"}]}, "b": {"o": "True"}}]
+    for tys in (("ta", "tb"), ("ta", "", "tc"), ("", ""), ("ta", "tb", "tc")):
+        chain = [_leaf(i + 1, ty, doc[i % 3]) for i, ty in enumerate(tys)]
+        cases.append({"chain": chain, "vals": vals2})
+        cases.append({"chain": [{"k": "compose", "args": chain, "kw": {"latex_name": "c"}}, _leaf(9, "tg", doc[1])], "vals": vals2})
     # one Variable object used twice: Sequence(v, v), Compose(v, w, v), Sequence(v, Compose(v, w)), Combine(v, v)
     for ty in ("", "ta"):
         v = dict(_leaf(1, ty, {"a": {"l": [1]}}), id="v")
@@ -1166,6 +1223,11 @@ def gen_cases(ctx):
     rng = ctx.rng
     quick = ctx.tier == "quick"
     ctx.exhaustive = False
+    fx, nk = detect_fx(), detect_nk()
+    ctx.notes = list(getattr(ctx, "notes", [])) + [
+        f"model variant compared with this tree: fx={fx} (line 196 continues the history on `compose`: the main theorems "
+        f"assume True), nk={nk} (Compose honours `name`: /repo does not)"
+        + ("" if fx and not nk else "  -- DIFFERS from the variant the theorems in THEOREMS are about")]
     yield from _exhaustive_cases(3)
     yield from _attr_exhaustive()
     yield from _tok_exhaustive()
@@ -1184,6 +1246,12 @@ def gen_cases(ctx):
             chain = [g.expr(types) for _ in range(n)]
             if rng.random() < 0.12:
                 _share(rng, chain)
+            if rng.random() < 0.1:
+                # one documented attribute on every leaf of the chain
+                k = rng.choice(["latex_name", "unit", "range"])
+                for e0 in chain:
+                    for l in _leaves(e0):
+                        l["kw"][k] = rng.choice(["e^+", "x", "mm", {"o": "None"}, {"l": [0, 1]}])
             yield {"chain": chain, "vals": [g.pre_value() for _ in range(2)]}
         elif r < n_chain + n_wild:
             yield _wild_case(rng)
@@ -1840,12 +1908,17 @@ def shrink(case):
 LEVEL_TEXT = ("Lean 4 theorems about a transcribed model of Variable.__init__/__call__/_update_context/__getattr__/__setattr__, "
               "Compose.__init__ and Combine.__init__/__getitem__, for all chains of variables (any length, expression trees of "
               "any nesting depth of Compose/Combine by mutual induction, any attributes within the stated, executable "
-              "well-formedness hypotheses) and all input values, plus a token-level model of __call__ (which objects are "
+              "well-formedness hypotheses -- among them 'no attribute named like a type', without which sentence 1 is false of "
+              "/repo: refuted in Lean and reported as a known finding) and all input values, plus a token-level model of __call__ (which objects are "
               "written, which objects the result is made of) proved to refine the value model; both are tied to /repo by a "
               "correspondence check (var_contexts, outputs, attribute reads, exception class and phase, id() graphs; every "
               "specification-side definition of the theorems is executed by the driver and compared) plus a direct oracle "
               "that evaluates the property's sentences on the real code.")
-LEVEL_NOTE = ("Trusted: Lean kernel (+ propext, Classical.choice, Quot.sound), the hand transcription validated by the "
+LEVEL_NOTE = ("Sentence 1 is proved only under 'no attribute named like a type' (its unrestricted form is refuted in Lean and "
+              "reported as a known finding of /repo). The clauses 'same data', 'Combine gives the tuple', 'frame' are true by "
+              "definition of the model (AUX_THEOREMS) and are carried by the correspondence and the oracle's independent "
+              "reference. "
+              "Trusted: Lean kernel (+ propext, Classical.choice, Quot.sound), the hand transcription validated by the "
               "correspondence run, dictionaries as slot vectors, deepcopy as renaming of objects, the getter fixture, the JSON "
               "protocol. lena/variables/functions.py (abs, Cm) is deliberately not modelled (not in the statement).")
 TECHNIQUE = "Lean 4 proof over hand-written model + correspondence check (exhaustive small chains + seeded random)"
